@@ -151,6 +151,8 @@ class Encoder:
             return r
         if k == 'BroadHave':
             return {'t': k, 'p': f['a'][0] + 1}
+        if k == 'BroadPieceReleased':
+            return {'t': 'BroadReleased'}
         if k == 'BroadState':
             return {'t': k, 'v': 'C' if f['me'] is True else 'U' if f['me'] is False else '-'}
         return {'t': 'Raw'}
